@@ -21,11 +21,14 @@ class Trace:
         self.case = case
         self.il = il
         self.decl = {}          # hex -> decoded tokens (or None if unparsable)
+        self.typed = {}         # untyped decoded tokens -> the typed field tokens as printed in replies
         ops = []
         for o in case.ops:
             t = o.split()
             if t[0] == "decl":
                 self.decl[t[1]] = None if t[4:] == ["bad"] else [untyped(x) for x in t[4:]]
+                if t[4:] != ["bad"] and t[4] == "method":
+                    self.typed[tuple(untyped(x) for x in t[4:])] = t[8:]
             ops.append(o)
         self.al = mg.align(ops, il)
         self.init = next((o.split() for o in ops if o.startswith("init ")), ["init", "0", "0"])
